@@ -11,7 +11,8 @@ from . import common
 
 def compile_cpp(src: Path, out: Path, san: str = 'asan+ubsan', extra: List[str] = ()) -> Tuple[bool, str]:
     out.parent.mkdir(parents=True, exist_ok=True)
-    flags = ['-std=c++17', '-I', str(common.REPO / 'include'), '-I', str(common.VERIF / 'harness'), '-DTAO_PEGTL_VERIF', '-w']
+    flags = ['-std=c++17', '-I', str(common.REPO / 'include'), '-I', str(common.VERIF / 'harness'), '-DTAO_PEGTL_VERIF',
+             '-include', str(common.VERIF / 'harness' / 'verif_hook.hpp'), '-w']
     if san == 'asan+ubsan':
         flags += ['-O1', '-g', '-fsanitize=address,undefined', '-fno-sanitize-recover=all']
     elif san == 'asan':
